@@ -38,11 +38,11 @@ class C19(Check):
     stub = ["clocks (SimClock; _time_used is computed from time.time())", "global PRNGs seeded by the run (shuffle, validation sampling)"]
     rule = ("schedule = labelled learning set (2-4 classes, 30-80 samples, 2-3 dims, optional unlabelled samples), split percentage, even / "
             "uneven split, shuffle, standard or dimension-wise learning with small levels, then <= 5 calls of __call__ / test_data / evaluate "
-            "with fresh data sets inside, partly outside or entirely outside the learned range, with or without unlabelled samples, or with a "
+            "/ continue_dimension_wise_refinement with fresh data sets inside, partly outside or entirely outside the learned range, with or without unlabelled samples, or with a "
             "deep copy of the object's own (already scaled) learning / testing piece. A state "
             "is (learning configuration class, sequence of call kinds with the numbers of classified samples); distinct_nontrivial counts "
             "distinct states after a call")
-    expected_probes = ["user_specified_range", "call_in_range", "call_partly_out", "all_out_refused", "unlabelled_set_aside", "test_data", "reclassified_earlier_data", "own_scaled_piece"]
+    expected_probes = ["user_specified_range", "call_in_range", "call_partly_out", "all_out_refused", "unlabelled_set_aside", "test_data", "reclassified_earlier_data", "own_scaled_piece", "continued_learning"]
     assumptions = ["ties between maximal densities accept any maximiser (tolerance 1e-12 relative on the densities)",
                    "the in-range test is the library's documented one on the scaled coordinates: 0.0049 <= s <= 0.9951"]
 
@@ -64,7 +64,7 @@ class C19(Check):
         o = stream(rk, "ops")
         ops = []
         for j in range(o.randint(1, 5)):
-            kind = o.choice(["call", "call", "test", "test", "evaluate", "recall", "own"])
+            kind = o.choice(["call", "call", "test", "test", "evaluate", "recall", "own", "continue"])
             where = o.choice(["in", "in", "partly", "out", "unl"])
             ops.append([kind, where, o.randrange(10 ** 6), o.choice([5, 10, 20])])
         return {"config": cfg, "ops": ops}
@@ -140,7 +140,7 @@ class C19(Check):
             if len(S) == 0:
                 return np.zeros((nclass, 0))
             pts = [tuple(float(v) for v in row) for row in S]
-            return np.array([np.asarray(cf(pts))[:, 0] for cf in clfs])
+            return np.array([np.asarray(cf(pts))[:, 0] for cf in cl.get_density_estimation_results()[0]])
 
         def check_classes(got, S, what):
             dens = densities(S)
@@ -155,13 +155,38 @@ class C19(Check):
 
         history = []        # (raw X in range, classes) of earlier __call__s
         trace = []
+
+        def recorded_classes_are_argmax(what):
+            """the classes recorded for the held testing samples are the arg-max classes of the current densities at the samples'
+            (already scaled) positions, one per held sample"""
+            td = cl.get_testing_data()
+            rec = np.array(cl.get_calculated_classes_testset())
+            if td.is_empty():
+                return
+            Xs = np.asarray(td.get_data()[0], dtype=float).reshape(-1, c["dim"])
+            if len(rec) != len(Xs):
+                ctx.violate("recorded_classes_cover_test_set", dict(sig, call=what), "%s: %d classes recorded for %d held testing samples" % (what, len(rec), len(Xs)))
+            check_classes(rec.astype(int), Xs, what)
         for (kind, where, dseed, m) in sched["ops"]:
             ctx.step()
             spread, shift, unl = {"in": (1.0, 0.0, 0.0), "partly": (1.6, -0.2, 0.0), "out": (1.0, 50.0, 0.0), "unl": (1.0, 0.0, 0.4)}[where]
             Xt, yt, _ = make_data(dseed, m, c["dim"], c["k"], spread=spread, shift=shift, unl=unl, centres=cent)
             S, inr = expected(Xt)
             ctx.ev(kind, where, int(inr.sum()), m)
-            if kind == "evaluate":
+            if kind == "continue":
+                # the documented continuation of a dimension-wise learning run: the class densities are refined further; the held
+                # testing samples are classified under the refined densities, and the summary describes those classes
+                if c["learn"] != "dimwise":
+                    continue
+                lim = c["max_evaluations"] + [15, 40, 80][dseed % 3]
+                cl.continue_dimension_wise_refinement(tolerance=0.0 if dseed % 5 else 1e9, max_evaluations=lim, min_evaluations=1)
+                ctx.probe("continued_learning")
+                clfs, _ = cl.get_density_estimation_results()
+                history = []        # classes of earlier calls were arg-max classes of the densities before the continuation
+                recorded_classes_are_argmax("held testing samples after continue_dimension_wise_refinement")
+                trace.append(("continue", len(cl.get_calculated_classes_testset())))
+            elif kind == "evaluate":
+                recorded_classes_are_argmax("held testing samples at evaluate()")
                 before = np.array(cl.get_calculated_classes_testset()).copy()
                 try:
                     ev = cl.evaluate()
